@@ -372,6 +372,17 @@ pub fn run(ctx: &Ctx) {
                 }
             }
         }
+        // above the dense range: every 3rd length, the four buffer relations rotating
+        let top = ctx.tier.pick(2400usize, 12000);
+        for (k, len) in (top + 1..65470).step_by(ctx.tier.pick(4, 3)).enumerate() {
+            let backend = if k % 2 == 0 { crate::instr::Backend::RingFirst } else { crate::instr::Backend::Default };
+            let suite = *suites.iter().filter(|s| ring_covers(**s)).nth((k / 2) % 4).unwrap();
+            let mut spec = SessionSpec::simple(HsName { pattern: ["NN", "N", "IK"][k % 3].to_string(), psks: vec![] }, suite, mix(ctx.seed, 77));
+            spec.backend_i = backend;
+            spec.backend_r = backend;
+            let slack = [0usize, 1, 15, 16][(k / 2) % 4];
+            dense.push(TCase { spec, stateless: k % 5 == 0, write: false, len, buf: len.saturating_sub(16) + slack, genuine: true, r_to_i: false });
+        }
         ctx.run_list("dense_transport_lengths", &dense, true, t_oracle);
         // the same for handshake payloads of three message shapes
         let mut hd = Vec::new();
@@ -385,6 +396,17 @@ pub fn run(ctx: &Ctx) {
                 let slack = [0usize, 1, 15, 16][(plen / 3 + bi) % 4];
                 hd.push(Case { spec, idx, kind: Kind::HsReadGenuine { plen, pbuf: plen + slack } });
             }
+        }
+        let top = ctx.tier.pick(1700usize, 6000);
+        for (k, plen) in (top + 1..65400).step_by(ctx.tier.pick(8, 3)).enumerate() {
+            let backend = if k % 2 == 0 { crate::instr::Backend::RingFirst } else { crate::instr::Backend::Default };
+            let (pat, idx) = [("NN", 1usize), ("XX", 2), ("IK", 0)][k % 3];
+            let suite = *suites.iter().filter(|s| ring_covers(**s)).nth((k / 2) % 4).unwrap();
+            let mut spec = SessionSpec::simple(HsName { pattern: pat.to_string(), psks: vec![] }, suite, mix(ctx.seed, 78));
+            spec.backend_i = backend;
+            spec.backend_r = backend;
+            let slack = [0usize, 1, 15, 16][(k / 2) % 4];
+            hd.push(Case { spec, idx, kind: Kind::HsReadGenuine { plen, pbuf: plen + slack } });
         }
         ctx.run_list("dense_handshake_payloads", &hd, true, oracle);
     }
